@@ -47,6 +47,12 @@ CHECKS["C16"] = dict(
    text="Every sequence of 1-3 NAL units over the listed boundary sizes (around 1297..1301, multiples of the fragment size, 60000) x header bits x start-code forms, aggregation-count boundary sequences of up to 12 NALs, and every VP8 buffer length 0..3000 (+3897..3903, 60000) x picture ids at the 7/15-bit boundary go through the real pack()/depayload code; oracle: payload <= 1300, exact bitstream reconstruction, FU-A S/E markers and header bits, STAP-A members, VP8 S bit and picture id. Descriptor round trip over the complete field product including all 2^15 picture ids.",
    note="NAL bodies contain no zero bytes (emulation prevention is the encoder's job); sizes between listed boundaries not enumerated.",
    design="2/C16")
+CHECKS["C12"] = dict(
+   level="model_checking",
+   technique="explicit-state breadth-first search to the fixpoint over the real RtpRouter (exact canonical state), every operation applied in every reachable state and compared with a reference model; shallow history search through the real RTCDtlsTransport handlers",
+   text="All reachable states of the real RtpRouter for small universes (2-3 receivers, 1-2 senders, 2-3 SSRCs, 1-3 payload types) are enumerated by BFS with an exact canonical state (every attribute of the router); in each state the complete alphabet - register_receiver with every SSRC subset x payload-type subset, unregister, sender (un)registration, RTP with every (ssrc, pt), SR/RR/BYE/REMB with every SSRC subset, NACK, PLI, SDES, malformed REMB - is applied to a copy of the real object and to a dict-based reference model and the answers compared; plus all histories of length <= 3 through RTCDtlsTransport._register_*/_handle_rtp_data/_handle_rtcp_data with serialised packets, comparing the callbacks invoked.",
+   note="Universe bounded as listed in the evidence; mid is not used for routing by the implementation.",
+   design="2/C12")
 NOT_YET = {}
 
 def main():
